@@ -161,6 +161,16 @@ class MovingRunner(hh.Runner):
         except Violation as v:
             raise Violation(v.monitor, where + v.detail)
         self.ctx.count("long_lived_judgements")
+        if self.rnd.random() < 0.3:
+            # the consumer edits, in place, the node bodies it was handed (they are its own):
+            # the iterator must not be holding on to them
+            for _, n in cut(lambda: list(it.nodes())):
+                hs.vandalize(getattr(n, "raw", None))
+            self.ctx.count("yielded_nodes_scribbled_on")
+            try:
+                judge(it, trie, model, RefTrie(model), self.rnd, self.ctx, max_queries=4)
+            except Violation as v:
+                raise Violation(v.monitor, where + "after the consumer edited the yielded node bodies in place: " + v.detail)
 
     def after_op(self, op):
         self.bit = None
